@@ -104,7 +104,8 @@ CHECKS = {
         "differential PBT: MulticlassCarver vs independently constructed one-vs-rest BinaryCarvers, column by column",
         "Generated 3-5 class samples (int/str/oddly ordered labels), optional dev, every BinaryCarver parameter; "
         "for every class and feature the f_c column must exist iff the reference BinaryCarver keeps f and equal its "
-        "output; raw columns unchanged, no other columns. Exploration over bounded sizes.",
+        "output; raw columns unchanged, no other columns; metamorphic: transforming the output again, or a frame with "
+        "stale class columns, gives the same class columns. Exploration over bounded sizes.",
         "Trusted: BinaryCarver itself (decided by C01-C04); this check decides the composition only.",
         "DESIGN.md §4 C12",
     ),
@@ -113,7 +114,9 @@ CHECKS = {
         "values_orders; history() re-derived with the C01 brute-force reference (measures, completeness, viable flag)",
         "Fitted carvers and Discretizer-family objects; summary rows vs known values / transform labels / missing-value "
         "placement; for Binary/ContinuousCarver every stage-1 grouping must appear exactly once in history with the "
-        "recomputed measure and the last viable record must be the fitted grouping. Exploration.",
+        "recomputed measure and the last viable record must be the fitted grouping; half of the objects are then "
+        "edited by hand (update_discretizer) and summary() is judged again, incl. the order of the written intervals "
+        "against the labels of increasing probes. Exploration.",
         "Trusted: C01's reference measures; base modalities from an identically configured Discretizer. The own row of "
         "un-merged missing values (dropna=False) is not judged.",
         "DESIGN.md §4 C16",
@@ -187,7 +190,8 @@ CHECKS = {
     "C04": (
         "PBT with a reference oracle: table-first generated samples, transform(X_train) compared with the "
         "mapping recomputed from values_orders (list+content) only; metamorphic string-form probe",
-        "Generated samples x all discretizer/carver classes x output_dtype x dropna x JSON-rebuilt objects; "
+        "Generated samples x all discretizer/carver classes x output_dtype x dropna x JSON-rebuilt objects x "
+        "hand-edited objects (update_discretizer, a third of the cases); "
         "every training row's label is checked against an independently computed group (function of the "
         "group, injective, rank for float, leader for str, missing per dropna). Exploration over bounded "
         "sample sizes (<=400 rows).",
